@@ -5,5 +5,5 @@ CONSTANTS
   IWalls <- QIWalls
   Instants <- QInstants
   OneStep = TRUE
-INVARIANTS MapsBack DisLaw WallLaw InterpretLaw ViewLaw StringTripLaw
+INVARIANTS MapsBack DisLaw FromDateLaw WallLaw InterpretLaw ViewLaw StringTripLaw
 CHECK_DEADLOCK FALSE
